@@ -1,0 +1,23 @@
+//go:build verif
+
+package pogreb
+
+// Contracts for the ordering of segments (GoVC, see /verif/DESIGN.md). Comment-only file.
+
+// the comparator handed to sort.SliceStable compares sequence ids (recovery replays, and compaction reasons about
+// "older", in this order - physical ids are reused and say nothing about age)
+//@ func (dl *datalog) segmentsBySequenceID$1(i int, j int) (less bool) [C03,C05,C12]
+//@   requires range: 0 <= i && i < len(segments) && 0 <= j && j < len(segments) && segments[i] != nil && segments[j] != nil
+//@   ensures [C03] by-sequence-id: less <==> segments[i].sequenceID < segments[j].sequenceID
+//@   modifies nothing
+
+// segmentsBySequenceID: ASSUMED (listed as trusted) given the comparator above: the non-nil entries of the table,
+// oldest first. sort.SliceStable itself (a stable sort by the comparator) is outside the contracts.
+//@ func (dl *datalog) segmentsBySequenceID() (segs []*segment) [C03,C05,C12]
+//@   trusted ranges over the 32767-entry table and calls sort.SliceStable; the comparator is verified separately
+//@   requires dl: dl != nil
+//@   ensures fresh: len(segs) >= 0 && len(segs) <= 32767 && (len(segs) == 0 || fresh(segs))
+//@   ensures members: forall q int :: off(segs) <= q && q < off(segs) + len(segs) ==> contents(segs)[q] != nil && contents(segs)[q].id < 32767 && dl.segments[contents(segs)[q].id] == contents(segs)[q]
+//@   ensures complete: forall i int :: 0 <= i && i < 32767 && dl.segments[i] != nil ==> exists q int :: off(segs) <= q && q < off(segs) + len(segs) && contents(segs)[q] == dl.segments[i]
+//@   ensures [C03] oldest-first: forall q1 int, q2 int :: off(segs) <= q1 && q1 < q2 && q2 < off(segs) + len(segs) ==> contents(segs)[q1].sequenceID <= contents(segs)[q2].sequenceID
+//@   ensures distinct: forall q1 int, q2 int :: off(segs) <= q1 && q1 < q2 && q2 < off(segs) + len(segs) ==> contents(segs)[q1] != contents(segs)[q2]
